@@ -36,6 +36,9 @@ CHECKS = {
  "C04": dict(cat="exploration", tech="the C03 pairs batched into old/new files and run through the real cli.ComputeDiff (fingerprint short-circuit + zipper); identical separately-compiled copies; pair beyond the block-count guard",
    text="For every natively distinguished pair the diff status must not be preserved; every function that is an identical copy in a round must be preserved with nothing added or removed; an oversized pair differing in one constant must not be preserved.",
    note="Trusted: as C03.", ref="3/C04"),
+ "C05": dict(cat="exploration", tech="bounded-exhaustive enumeration: program family x renaming/reformatting/reordering catalogue at every site x {pebble, json} x {exact, full} x threshold grid x database contents (decoys) on the real index and scan paths; end-to-end sfw index/scan binary",
+   text="Each body of the family is indexed through the real topology extraction and signature construction into fresh real stores, and every identifier-renaming, reformatting and reordering variant is scanned on both back ends, in both modes, at six thresholds, with and without decoys; the alert for the indexed signature must have confidence exactly 1.0. The built CLI is driven end to end on a subset.",
+   note="Trusted: decoys are constructed to score below 1.0; same-package callee renaming is outside this check (stated in DESIGN).", ref="3/C05"),
 }
 NOT_YET = {}
 ALL = ["C%02d" % i for i in range(1, 21)]
